@@ -256,9 +256,18 @@ def parse_rvalue(s):
                 return ("struct", m.group(1).strip(), fields)
         except ValueError:
             pass
-    # closure aggregate {closure@...}
+    # closure aggregate {closure@...}  [ { cap: op, .. } ]
     if s.startswith("{closure@") or s.startswith("{coroutine@"):
-        return ("closure", s)
+        e = find_matching(s, 0)
+        name = s[:e + 1]
+        rest = s[e + 1:].strip()
+        caps = []
+        if rest.startswith("{") and rest.endswith("}"):
+            for part in split_top(rest[1:-1]):
+                if part:
+                    k = part.index(":")
+                    caps.append((part[:k].strip(), parse_operand(part[k + 1:])))
+        return ("closure", name, caps)
     # tuple-like aggregate  Path(args)   (enum variant / tuple struct ctor)
     if s.endswith(")"):
         # find the '(' matching the last ')'
@@ -453,16 +462,40 @@ def parse_mir(text):
                 for p, t in params:
                     cur.locals[p] = t
                 cur.locals["_0"] = ret
-            elif re.match(r"^(const|static|promoted\[)", line) and line.rstrip().endswith("{"):
-                # const / static / promoted body:   const NAME: T = { ... }   |  promoted[0] in f: T = {
-                m = re.match(r"^(?:const|static(?: mut)?) (.*?): (.*) = \{$", line.rstrip())
-                m2 = re.match(r"^promoted\[(\d+)\] in (.*?): (.*) = \{$", line.rstrip())
-                if m:
-                    cur = Function("const " + m.group(1), [], m.group(2), line)
-                elif m2:
-                    cur = Function("promoted[%s] in %s" % (m2.group(1), m2.group(2)), [], m2.group(3), line)
-                else:
+            elif re.match(r"^(const|static) ", line) and (line.rstrip().endswith("{") or line.rstrip().endswith(";")):
+                # const / static body:   const NAME: T = { ... }    or one-liner   const NAME: T = const VALUE;
+                body = re.sub(r"^(const|static(?: mut)?) ", "", line.rstrip())
+                # split NAME: T at the first ": " outside <...>
+                depth = 0
+                cut = None
+                for k_, ch in enumerate(body):
+                    if ch == "<":
+                        depth += 1
+                    elif ch == ">" and body[k_ - 1] not in "-=":
+                        depth -= 1
+                    elif ch == ":" and depth == 0 and body[k_ + 1:k_ + 2] == " " and body[k_ - 1] != ":":
+                        cut = k_
+                        break
+                if cut is None:
                     cur = Function("?" + line, [], "?", line)
+                else:
+                    cname = body[:cut]
+                    rest = body[cut + 2:]
+                    if rest.endswith("= {"):
+                        cur = Function("const " + cname, [], rest[:-3].strip(), line)
+                    else:
+                        tyv = rest.rsplit(" = ", 1)
+                        f1 = Function("const " + cname, [], tyv[0].strip(), line)
+                        f1.locals["_0"] = f1.ret
+                        b1 = Block("bb0", False)
+                        try:
+                            b1.stmts.append(("assign", ("local", "_0"), parse_rvalue(tyv[1].rstrip(";").strip())))
+                        except Exception:
+                            b1.stmts.append(("unknown", line))
+                        b1.term = ("return",)
+                        f1.blocks["bb0"] = b1
+                        funcs[f1.name] = f1
+                        continue
                 cur.locals["_0"] = cur.ret
             continue
         s = line.strip()
